@@ -611,7 +611,7 @@ class kMinPathError(pathmodel.AbstractPathModelDAG):
         non_empty_slacks = []
         non_empty_scaled_slacks = []
         for path, weight, slack, scaled_slack in zip(solution["paths"], solution["weights"], solution["slacks"], solution.get("scaled_slacks", solution["slacks"])):
-            if len(path) > 1:
+            if len(path) > 1 or (len(path) == 1 and self.flow_attr_origin == "node"):
                 non_empty_paths.append(path)
                 non_empty_weights.append(weight)
                 non_empty_slacks.append(slack)
